@@ -94,7 +94,7 @@ pub type Result<T> = core::result::Result<T, Error>;
 pub open spec fn nondecreasing(s: Seq<EntryInfo>) -> bool {
     forall|i: int, j: int| 0 <= i <= j < s.len() ==> s[i].addr.sequence <= s[j].addr.sequence
 }
-//@region foyer-storage/src/engine/block/recover.rs :: impl~^impl BlockRecoverRunner$/fn run name=recover_round start=/let infos = match r \{/ stmts=99 rules=drop-tracing,option-map
+//@region foyer-storage/src/engine/block/recover.rs :: impl~^impl BlockRecoverRunner$/fn run name=recover_round start=/let infos = / stmts=99 rules=drop-tracing,option-map
 //@head
 #[verifier::exec_allows_no_decreases_clause]
 fn recover_round(mode: RecoverMode, r: Result<Option<Vec<EntryInfo>>>, recovered: &mut Vec<EntryInfo>, id: BlockId) -> (out: Result<bool>)
